@@ -33,9 +33,14 @@ RULE = ("pairs (t, t') of seeded expression trees (depth <= 3 quick, <= 5 thorou
         "elements, element i of a leaf = value * multiplier i) on ONE pair of operand objects reused for a+b, b+a, "
         "(a+b)-b, a-b; every element of every step is a case; ndarray leaves of shallow operands also with element types int64, int32, "
         "float32 on the left, the right or both sides (exact integer values go to the model; bound with eps = 2**-24 "
-        "where float32 takes part)")
+        "where float32 takes part; a float32 value is judged only when every exact magnitude of the evaluation lies "
+        "in 1e-30..1e30); a third of the Array groups draws the container kinds of the two operands independently, and "
+        "a stream array-mixed runs EVERY pair of container kinds (ndarray / list / tuple on either side) x 1-4 elements "
+        "with a quantity type at exponent +-2, +-3 in different units on the two sides")
 EXHAUSTIVE = {"quick": False, "thorough": False}
 ASSUMPTIONS = ["float results stay within K*eps*M (K=64) of the exact model: checked on every run, not proved",
+               "the model is per number: an Array operation is the model applied to every element with the operands' "
+               "quantities (that reduction is C10's theorem); the container kinds of the operands are not modelled",
                "the default singleton holds the POSC database that the translator rebuilds (same fill function)"]
 
 CLASS_AFFINE = "simple-operands-different-affine-offsets"
@@ -127,18 +132,55 @@ def _gen(ctx, salt, max_depth, per_level, n_simple, n_odd):
         yield from _both(ctx, "derived-with-affine-unit", ["*", a, x], ["*", uni.variant(rng, x), b])
 
 
+def _mixed_arrays(ctx, salt, reps):
+    """Array operands with EVERY combination of container kinds (ndarray / list / tuple on either side) and 1-4
+    elements; both operands have the same dimensions with a quantity type at the exponent +-2 or +-3 (a power, or a
+    power in a denominator) in different units, so that the matching re-expresses a whole container with an exponent
+    other than 1.  Same steps as the Array leg: a+b, b+a, (a+b)-b, a-b."""
+    rng = ctx.fresh_rng("C03-mixed" + salt)
+    uni = ctx.uni
+    types = [t for t in uni.types if len(uni.units[t]) >= 2]
+    small = [1.5, -1.25, 0.75, 2.0, -0.5, 6.0, -3.0, 50.0, 20.0, -8.0]
+    i = 0
+    for _rep in range(reps):
+        for ka in A.ARR_CONTAINERS:
+            for kb in A.ARR_CONTAINERS:
+                for n in (1, 2, 3, 4):
+                    e = (2, -2, 3, -3)[(i + i // 4 + _rep) % 4]
+                    i += 1
+                    t = rng.choice(types)
+                    u1, u2 = rng.sample(uni.units[t], 2)
+                    c1, c2 = rng.choice(uni.cats[t]), rng.choice(uni.cats[t])
+                    a = ["^", ["L", float(rng.choice(small)).hex(), u1, c1], abs(e)]
+                    b = ["^", ["L", float(rng.choice(small)).hex(), u2, c2], abs(e)]
+                    if e < 0:
+                        x = uni.leaf(rng, rng.choice([q for q in uni.types if q != t]))
+                        a = ["/", ["L", float(rng.choice(small)).hex()] + x[2:], a]
+                        b = ["/", ["L", float(rng.choice(small)).hex()] + uni.variant(rng, x)[2:], b]
+                    cs = A.array_cases(ctx, "add", a, b, rng, kind=A.kind_name(ka, kb), n=n)
+                    _note(ctx, "array-mixed:%s:%d-elements:exp%+d%s" % (A.kind_name(ka, kb), n, e, "" if cs else ":not-buildable"))
+                    d = ctx.notes.setdefault("array_leg", {})
+                    d["groups"] = d.get("groups", 0) + 1
+                    d["element_cases"] = d.get("element_cases", 0) + len(cs)
+                    yield from cs
+
+
 def cases(ctx):
     if ctx.tier == "quick":
         yield from _gen(ctx, "corr", 3, 70, 120, 40)
+        yield from _mixed_arrays(ctx, "corr", 1)
     else:
         yield from _gen(ctx, "corr", 5, 500, 2500, 700)
+        yield from _mixed_arrays(ctx, "corr", 6)
 
 
 def search(ctx):
     if ctx.tier == "quick":
         yield from _gen(ctx, "search", 3, 120, 200, 40)
+        yield from _mixed_arrays(ctx, "search", 1)
     else:
         yield from _gen(ctx, "search", 5, 1200, 3000, 500)
+        yield from _mixed_arrays(ctx, "search", 4)
 
 
 # ------------------------------------------------------------- the property itself, on the real code only
@@ -193,8 +235,8 @@ def _oracle_array(c, ctx):
 
     with numpy.errstate(all="ignore"):
         try:
-            a = A.build_array(t["a"], ar["mult"], ar["kind"], dts[0])
-            b = A.build_array(t["b"], ar["mult"], ar["kind"], dts[1])
+            a = A.build_array(t["a"], ar["mult"], A.arr_kinds(ar)[0], dts[0])
+            b = A.build_array(t["b"], ar["mult"], A.arr_kinds(ar)[1], dts[1])
             a0, b0 = A.elems(a), A.elems(b)
         except Exception:
             return None
@@ -204,6 +246,8 @@ def _oracle_array(c, ctx):
             r = a + b
             if r.GetQuantity() != a.GetQuantity():
                 return fail("Array a+b has the left operand's units and categories", got=repr(r.GetQuantity()))
+            if A.f32_skip(ctx, ar, [a, b, r], db, ma + mb):
+                return None  # float32 range: magnitudes outside 1e-30..1e30 are not judged
             got = A.mags_of(r, db)
             rv = A.elems(r)  # as returned (the result may share its container with an operand)
             if not all(math.isfinite(x) for x in got):
